@@ -26,80 +26,80 @@
 #endif
 
 void sm2_z256_set_one(sm2_z256_t r)
-REQUIRES(W_OK(r, 32))
+REQUIRES(WR_OK(r, 32))
 ASSIGNS(OBJ_UPTO(r, 32))
 ENSURES(VAL4(r) == 1)
 ;
 
 void sm2_z256_set_zero(sm2_z256_t r)
-REQUIRES(W_OK(r, 32))
+REQUIRES(WR_OK(r, 32))
 ASSIGNS(OBJ_UPTO(r, 32))
 ENSURES(VAL4(r) == 0)
 ;
 
 void sm2_z256_from_bytes(sm2_z256_t r, const uint8_t in[32])
-REQUIRES(W_OK(r, 32) && R_OK(in, 32) && SEPARATE(r, in))
+REQUIRES(WR_OK(r, 32) && RD_OK(in, 32) && SEPARATE(r, in))
 ASSIGNS(OBJ_UPTO(r, 32))
 ENSURES(r[3] == BE64(in) && r[2] == BE64(in + 8) && r[1] == BE64(in + 16) && r[0] == BE64(in + 24))
 ;
 
 void sm2_z256_to_bytes(const sm2_z256_t a, uint8_t out[32])
-REQUIRES(R_OK(a, 32) && W_OK(out, 32) && SEPARATE(a, out))
+REQUIRES(RD_OK(a, 32) && WR_OK(out, 32) && SEPARATE(a, out))
 ASSIGNS(OBJ_UPTO(out, 32))
 ENSURES(a[3] == BE64(out) && a[2] == BE64(out + 8) && a[1] == BE64(out + 16) && a[0] == BE64(out + 24))
 ;
 
 void sm2_z256_copy(sm2_z256_t r, const sm2_z256_t a)
-REQUIRES(W_OK(r, 32) && R_OK(a, 32))
+REQUIRES(WR_OK(r, 32) && RD_OK(a, 32))
 ASSIGNS(OBJ_UPTO(r, 32))
 ENSURES(VAL4(r) == OLDVAL4(a))
 ;
 
 void sm2_z256_copy_conditional(sm2_z256_t dst, const sm2_z256_t src, uint64_t move)
-REQUIRES(W_OK(dst, 32) && R_OK(src, 32) && move <= 1)
+REQUIRES(WR_OK(dst, 32) && RD_OK(src, 32) && move <= 1)
 ASSIGNS(OBJ_UPTO(dst, 32))
 ENSURES(VAL4(dst) == (move ? OLDVAL4(src) : OLDVAL4(dst)))
 ;
 
 uint64_t sm2_z256_equ(const sm2_z256_t a, const sm2_z256_t b)
-REQUIRES(R_OK(a, 32) && R_OK(b, 32))
+REQUIRES(RD_OK(a, 32) && RD_OK(b, 32))
 ASSIGNS()
 ENSURES(RET == (uint64_t)(VAL4(a) == VAL4(b)))
 ;
 
 int sm2_z256_cmp(const sm2_z256_t a, const sm2_z256_t b)
-REQUIRES(R_OK(a, 32) && R_OK(b, 32))
+REQUIRES(RD_OK(a, 32) && RD_OK(b, 32))
 ASSIGNS()
 ENSURES(RET == (VAL4(a) > VAL4(b) ? 1 : (VAL4(a) < VAL4(b) ? -1 : 0)))
 ;
 
 uint64_t sm2_z256_is_zero(const sm2_z256_t a)
-REQUIRES(R_OK(a, 32))
+REQUIRES(RD_OK(a, 32))
 ASSIGNS()
 ENSURES(RET == (uint64_t)(VAL4(a) == 0))
 ;
 
 int sm2_z256_is_odd(const sm2_z256_t a)
-REQUIRES(R_OK(a, 32))
+REQUIRES(RD_OK(a, 32))
 ASSIGNS()
 ENSURES(RET == (int)(VAL4(a) & 1))
 ;
 
 void sm2_z256_rshift(sm2_z256_t r, const sm2_z256_t a, unsigned int nbits)
-REQUIRES(W_OK(r, 32) && R_OK(a, 32))
+REQUIRES(WR_OK(r, 32) && RD_OK(a, 32))
 ASSIGNS(OBJ_UPTO(r, 32))
 ENSURES(VAL4(r) == (OLDVAL4(a) >> (nbits & 0x3f)))
 ;
 
 uint64_t sm2_z256_add(sm2_z256_t r, const sm2_z256_t a, const sm2_z256_t b)
-REQUIRES(W_OK(r, 32) && R_OK(a, 32) && R_OK(b, 32))
+REQUIRES(WR_OK(r, 32) && RD_OK(a, 32) && RD_OK(b, 32))
 ASSIGNS(OBJ_UPTO(r, 32))
 ENSURES(RET <= 1)
 ENSURES(VAL4(r) + (L64(RET) << 256) == OLDVAL4(a) + OLDVAL4(b))
 ;
 
 uint64_t sm2_z256_sub(sm2_z256_t r, const sm2_z256_t a, const sm2_z256_t b)
-REQUIRES(W_OK(r, 32) && R_OK(a, 32) && R_OK(b, 32))
+REQUIRES(WR_OK(r, 32) && RD_OK(a, 32) && RD_OK(b, 32))
 ASSIGNS(OBJ_UPTO(r, 32))
 ENSURES(RET <= 1)
 /* r - borrow*2^256 == a - b, written without negative numbers */
@@ -108,28 +108,28 @@ ENSURES(VAL4(r) + OLDVAL4(b) == OLDVAL4(a) + (L64(RET) << 256))
 
 /* ---- GF(p): domain a,b < p; result canonical (< p) and congruent ---- */
 void sm2_z256_modp_add(sm2_z256_t r, const sm2_z256_t a, const sm2_z256_t b)
-REQUIRES(W_OK(r, 32) && R_OK(a, 32) && R_OK(b, 32) && VAL4(a) < BV_P && VAL4(b) < BV_P)
+REQUIRES(WR_OK(r, 32) && RD_OK(a, 32) && RD_OK(b, 32) && VAL4(a) < BV_P && VAL4(b) < BV_P)
 ASSIGNS(OBJ_UPTO(r, 32))
 ENSURES(VAL4(r) < BV_P)
 ENSURES(VAL4(r) == OLDVAL4(a) + OLDVAL4(b) || VAL4(r) + BV_P == OLDVAL4(a) + OLDVAL4(b))
 ;
 
 void sm2_z256_modp_sub(sm2_z256_t r, const sm2_z256_t a, const sm2_z256_t b)
-REQUIRES(W_OK(r, 32) && R_OK(a, 32) && R_OK(b, 32) && VAL4(a) < BV_P && VAL4(b) < BV_P)
+REQUIRES(WR_OK(r, 32) && RD_OK(a, 32) && RD_OK(b, 32) && VAL4(a) < BV_P && VAL4(b) < BV_P)
 ASSIGNS(OBJ_UPTO(r, 32))
 ENSURES(VAL4(r) < BV_P)
 ENSURES(VAL4(r) + OLDVAL4(b) == OLDVAL4(a) || VAL4(r) + OLDVAL4(b) == OLDVAL4(a) + BV_P)
 ;
 
 void sm2_z256_modp_dbl(sm2_z256_t r, const sm2_z256_t a)
-REQUIRES(W_OK(r, 32) && R_OK(a, 32) && VAL4(a) < BV_P)
+REQUIRES(WR_OK(r, 32) && RD_OK(a, 32) && VAL4(a) < BV_P)
 ASSIGNS(OBJ_UPTO(r, 32))
 ENSURES(VAL4(r) < BV_P)
 ENSURES(VAL4(r) == 2 * OLDVAL4(a) || VAL4(r) + BV_P == 2 * OLDVAL4(a))
 ;
 
 void sm2_z256_modp_tri(sm2_z256_t r, const sm2_z256_t a)
-REQUIRES(W_OK(r, 32) && R_OK(a, 32) && VAL4(a) < BV_P)
+REQUIRES(WR_OK(r, 32) && RD_OK(a, 32) && VAL4(a) < BV_P)
 ASSIGNS(OBJ_UPTO(r, 32))
 ENSURES(VAL4(r) < BV_P)
 ENSURES((bv258)VAL4(r) == 3 * (bv258)OLDVAL4(a) || (bv258)VAL4(r) + (bv258)BV_P == 3 * (bv258)OLDVAL4(a)
@@ -138,14 +138,14 @@ ENSURES((bv258)VAL4(r) == 3 * (bv258)OLDVAL4(a) || (bv258)VAL4(r) + (bv258)BV_P 
 
 /* -a mod p: canonical, including -0 == 0 */
 void sm2_z256_modp_neg(sm2_z256_t r, const sm2_z256_t a)
-REQUIRES(W_OK(r, 32) && R_OK(a, 32) && VAL4(a) < BV_P)
+REQUIRES(WR_OK(r, 32) && RD_OK(a, 32) && VAL4(a) < BV_P)
 ASSIGNS(OBJ_UPTO(r, 32))
 ENSURES(VAL4(r) < BV_P)
 ENSURES((VAL4(r) + OLDVAL4(a) == BV_P) || (VAL4(r) == 0 && OLDVAL4(a) == 0))
 ;
 
 void sm2_z256_modp_haf(sm2_z256_t r, const sm2_z256_t a)
-REQUIRES(W_OK(r, 32) && R_OK(a, 32) && VAL4(a) < BV_P)
+REQUIRES(WR_OK(r, 32) && RD_OK(a, 32) && VAL4(a) < BV_P)
 ASSIGNS(OBJ_UPTO(r, 32))
 ENSURES(VAL4(r) < BV_P)
 ENSURES(2 * VAL4(r) == OLDVAL4(a) || 2 * VAL4(r) == OLDVAL4(a) + BV_P)
@@ -153,7 +153,7 @@ ENSURES(2 * VAL4(r) == OLDVAL4(a) || 2 * VAL4(r) == OLDVAL4(a) + BV_P)
 
 /* ---- Z_n ---- */
 void sm2_z256_modn_add(sm2_z256_t r, const sm2_z256_t a, const sm2_z256_t b)
-REQUIRES(W_OK(r, 32) && R_OK(a, 32) && R_OK(b, 32) && VAL4(a) < BV_N && VAL4(b) < BV_N)
+REQUIRES(WR_OK(r, 32) && RD_OK(a, 32) && RD_OK(b, 32) && VAL4(a) < BV_N && VAL4(b) < BV_N)
 ASSIGNS(OBJ_UPTO(r, 32))
 ENSURES(VAL4(r) < BV_N)
 ENSURES(VAL4(r) == OLDVAL4(a) + OLDVAL4(b) || VAL4(r) + BV_N == OLDVAL4(a) + OLDVAL4(b))
@@ -162,14 +162,14 @@ ENSURES(VAL4(r) == ((OLDVAL4(a) + OLDVAL4(b)) >= BV_N ? (OLDVAL4(a) + OLDVAL4(b)
 ;
 
 void sm2_z256_modn_sub(sm2_z256_t r, const sm2_z256_t a, const sm2_z256_t b)
-REQUIRES(W_OK(r, 32) && R_OK(a, 32) && R_OK(b, 32) && VAL4(a) < BV_N && VAL4(b) < BV_N)
+REQUIRES(WR_OK(r, 32) && RD_OK(a, 32) && RD_OK(b, 32) && VAL4(a) < BV_N && VAL4(b) < BV_N)
 ASSIGNS(OBJ_UPTO(r, 32))
 ENSURES(VAL4(r) < BV_N)
 ENSURES(VAL4(r) + OLDVAL4(b) == OLDVAL4(a) || VAL4(r) + OLDVAL4(b) == OLDVAL4(a) + BV_N)
 ;
 
 void sm2_z256_modn_neg(sm2_z256_t r, const sm2_z256_t a)
-REQUIRES(W_OK(r, 32) && R_OK(a, 32) && VAL4(a) < BV_N)
+REQUIRES(WR_OK(r, 32) && RD_OK(a, 32) && VAL4(a) < BV_N)
 ASSIGNS(OBJ_UPTO(r, 32))
 ENSURES(VAL4(r) < BV_N)
 ENSURES((VAL4(r) + OLDVAL4(a) == BV_N) || (VAL4(r) == 0 && OLDVAL4(a) == 0))
